@@ -85,6 +85,14 @@ class patched_random:
         random.random = self._old
 
 
+class Runaway(Exception):
+    """raised by the recording protocol/handlers when a run exceeds the harness's hard cap (a
+    changed implementation may loop forever; the cap turns that into an observable crash)"""
+
+
+HARD_CAP = 150000
+
+
 class Recorder:
     """Collects the implementation's observations in the driver's trace format."""
 
@@ -111,6 +119,8 @@ class Recorder:
         if pos is not None:
             entry.append(v3bits(pos))
         self.trace.append(entry)
+        if len(self.trace) > HARD_CAP:
+            raise Runaway(f"more than {HARD_CAP} observations")
         if pos is not None and self.sim is not None:
             # the node's own position at the moment its telemetry is handled (C12)
             try:
@@ -224,6 +234,8 @@ def _hooks_for(rec, label, sampler):
 
     def after_simulation_step(self, iteration, timestamp):
         rec.trace.append(["after", label, iteration, to_ticks(timestamp)])
+        if len(rec.trace) > HARD_CAP:
+            raise Runaway(f"more than {HARD_CAP} observations")
         if sampler:
             rec.sample_positions()
         return super(holder["cls"], self).after_simulation_step(iteration, timestamp)
